@@ -433,7 +433,7 @@ def _transform_keeps_cacheability(ex, st, post, result):
 
 contract('mapproxy.image.transform:ImageTransformer.transform', props=['C01', 'C20'],
          types=dict(src_img='opaque', src_bbox='opaque', dst_size='opaque', dst_bbox='opaque', image_opts='opaque'), returns='opaque',
-         default_callee='opaque', opaque_fields={'size': 'opaque', 'cacheable': 'opaque'}, stable_fields=['size'],
+         default_callee='opaque', opaque_fields={'size': 'opaque', 'cacheable': 'bool'}, stable_fields=['size'],
          opaque_spec={'_no_transformation_needed': {'returns': 'bool', 'pure': True}, '_transform_simple': {'pure': True},
                       '_transform': {'pure': True}},
          opaque=['_no_transformation_needed', '_transform_simple', '_transform'],
